@@ -611,6 +611,7 @@ def shards(tier, seed):
             out.append((tier, seed, pi, si))
     out.append((tier, seed, "derive-after-run", 0))
     out.append((tier, seed, "equal-args", 0))
+    out.append((tier, seed, "cached-interrupt", 0))
     return out
 
 
@@ -622,6 +623,12 @@ def run_shard(shard):
         return acc
     if pi == "equal-args":
         equal_but_different_args(acc)
+        return acc
+    if pi == "cached-interrupt":
+        # cache=True on an interrupt (with and without an emit signal): every call history on one cache equals the uncached runner
+        from . import c14
+
+        c14.cached_interrupt_histories(acc, 2 if tier == "quick" else 3)
         return acc
     name, progs, variants = list(programs())[pi]
     sub = list(cacheable_subsets(progs, tier))[si]
@@ -665,6 +672,11 @@ def coverage_extra(acc, tier, seed):
 
 def replay(rep):
     acc = Acc()
+    if rep.get("cached_interrupt"):
+        from . import c14
+
+        c14.cached_interrupt_histories(acc, 3)
+        return [v["message"] for v in acc.violations.values()]
     if rep.get("equal_but_different_args"):
         equal_but_different_args(acc)
         return [v["message"] for v in acc.violations.values()]
